@@ -102,8 +102,8 @@ Definition check_case (x : lcase) : list N :=
    5 an event that cannot be applied published something, called a listener, or changed the stored entry
    6 Value() differs from get (events of the handler's Type)
    7 published without calling the listener or the reverse, more than one message, or the listener saw other new values
-   8 a delete event was published for a resource the previous get reported as not found
-   9 an add event was published for a collection the previous get reported as not found (created without create event)
+   (8, 9 unused: a delete / an add published for a resource reported as not found is NOT a violation of C20:
+    the served value still equals the fold; the harness only tags such cases)
    10 index entries differ from the keys of the stored value (handler without Default, no empty keys in the case) *)
 Definition view_of_g (g : gres) : option view :=
   match g with GOk r => Some (Some r) | GNotFound => Some None | GErr => None end.
@@ -166,12 +166,7 @@ Fixpoint viol_steps (c : cfg) (typed : bool) (cl prev : option view) (pstored : 
          end) ++
         (if forallb (call_ok pv pstored) (g_call o) then [] else [4]) ++
         (if unappliable pv (so_ev o) &&
-            negb (is_nil (g_pub o) && is_nil (g_call o) && veqb pstored (g_stored o)) then [5] else []) ++
-        (match pv, g_pub o with
-         | None, PDelete :: _ => [8]
-         | None, PAdd _ _ :: _ => [9]
-         | _, _ => []
-         end)
+            negb (is_nil (g_pub o) && is_nil (g_call o) && veqb pstored (g_stored o)) then [5] else [])
       | _, _ => []
       end ++
       (if typed && negb (geqb (g_value o) (g_get o)) then [6] else []) ++
